@@ -9,12 +9,12 @@ ID = "C07"
 RULE = ("E-INPUT: every dataset of <= 2 (thorough <= 3) data as sequences (each multiset also reversed / rotated) over 6 times x "
         "widths {20,55} x text {absent,'ab','<&>\"e-acute'}, for numeric times on a LinearScale and for datetime/date values "
         "(4 with a time of day, a date, a month end) on a TimeScale (caller-supplied, or the library default for directions up/left with default engine options); plus bare datetime.time data and a seeded time; x 4 "
-        "directions x domain {derived, explicit} x 3 engine option sets x 2 (size, layer gap, padding, margin, tick display) "
+        "directions x domain {derived, explicit} x 5 engine option sets (one of them also with a custom timeFn accessor over records whose 'time' field holds another value) x 2 (size, layer gap, padding, margin, tick display) "
         "x 2 back-ends. Each case = real Timeline(...).export(), parsed (R-SVG/R-TIKZ), compared with the affine model of the "
         "caller's own data. Non-trivial: >= 2 layers or a displaced label.")
 ASSUMPTIONS = ["explicit widths only (no LaTeX in the image)", "the tick instants are the ones the timeline's scale reports",
                "margin scopes are not compared (documented TikZ limitation)"]
-REQUIRED_COUNTERS = ("exports", "multi_layer", "displaced", "time_of_day_data", "text_special", "default_scale_exports")
+REQUIRED_COUNTERS = ("exports", "multi_layer", "displaced", "time_of_day_data", "text_special", "default_scale_exports", "custom_time_accessor_exports")
 
 
 def bounds(tier, seed):
@@ -48,8 +48,16 @@ def judge(case, acc=None):
         del opts["scale"]  # the library's own default time scale
     scale = opts.get("scale")
     today0 = _dt.date.today()
+    shown = data
+    if case.get("timefn"):
+        # the documented timeFn option: positions come from the accessor; the records' "time" field holds something else
+        # (the mirror image of the true time), so reading it instead of calling the accessor puts the dots elsewhere
+        shown = [dict(d, when=d["time"], time=(10 - d["time"])) for d in data]
+        opts["timeFn"] = lambda d: d["when"]
+        if acc is not None:
+            acc.counters["custom_time_accessor_exports"] += 1
     try:
-        doc, tl, R = dc.run_export(backend, data, opts)
+        doc, tl, R = dc.run_export(backend, shown, opts)
         if scale is None:
             scale = tl.options["scale"]
             if acc is not None:
@@ -145,6 +153,13 @@ def run_shard(shard):
                     acc.counters["skipped_" + bad[1].split()[0]] += 1
                 elif bad:
                     acc.violation(case, bad[0], bad[1], order=(len(data), di, ci, backend))
+                if kind == "lin" and cfg[2] == 1 and cfg[3] == 0 and shard["kind"] == "lin":
+                    case = {"kind": kind, "data": data, "cfg": list(cfg), "backend": backend, "timefn": True}
+                    bad = judge(case, acc)
+                    acc.evals += 1
+                    acc.trans += 1
+                    if bad and bad[0] != "SKIP":
+                        acc.violation(case, bad[0] + ":timeFn", bad[1], order=(len(data), di, ci, backend, 1))
     if case:
         acc.sample(case)
     return acc
@@ -153,6 +168,8 @@ def run_shard(shard):
 def replay(case):
     case = dict(case)
     bad = judge(case)
+    if bad and case.get("timefn") and bad[0] != "SKIP":
+        bad = (bad[0] + ":timeFn", bad[1])
     return None if bad is None or bad[0] == "SKIP" else bad
 
 
